@@ -462,11 +462,23 @@ class SelectWith(Statement):
         self._target = target
 
     def write(self, scope) -> TextBlock:
+        # The choices of a selected assignment must be unique.
+        # Branches that repeat the choice of an earlier branch are not emitted.
+        branches = []
+        used_choices = set()
+
+        for branch in self._branches:
+            choice = branch[0].write(scope, self._arg.result)
+
+            if choice not in used_choices:
+                used_choices.add(choice)
+                branches.append(branch)
+
         if self._default is None:
-            assert len(self._branches) != 0
-            separators = "," * (len(self._branches) - 1) + ";"
+            assert len(branches) != 0
+            separators = "," * (len(branches) - 1) + ";"
         else:
-            separators = "," * len(self._branches)
+            separators = "," * len(branches)
 
         assert isinstance(self._arg, Value)
 
@@ -503,7 +515,7 @@ class SelectWith(Statement):
                                 )
                                 else f"{branch[1].write(scope, self._target.result)} when {branch[0].write(scope, self._arg.result)}{sep}"
                             )
-                            for branch, sep in zip(self._branches, separators)
+                            for branch, sep in zip(branches, separators)
                         ],
                         *[
                             f"{default.write(scope, self._target.result)} when others;"
